@@ -183,6 +183,8 @@ def gen_imports(rng, tree, relpath, root="proj", externals=True, n=None):
                 if "." in tgt and rng.random() < 0.7:
                     q, nme = tgt.rsplit(".", 1)
                     st = f"from {'.' * level}{q} import {nme}"
+                elif rng.random() < 0.25:
+                    st = f"from {'.' * level}{tgt} import *"
                 elif rng.random() < 0.5:
                     st = f"from {'.' * level} import {tgt.split('.')[0]}"
                 else:
